@@ -310,6 +310,7 @@ class ParseContext:
 
     name = fn_or_cls_name
     import_source = self._import_source(source, attr_names)
+    method_lists = (None, None)
     original = _inverse_lookup(fn_or_cls)
     if original is not None:
       # A re-registration (the class of a newly configured method) keeps the
@@ -321,6 +322,9 @@ class ParseContext:
       parent = _inverse_lookup(path_attrs[-1])
       if parent is not None:  # A method of an already registered class.
         module = parent.selector
+        if fn_or_cls is _find_class_construction_fn(path_attrs[-1]):
+          # `Class.__init__.param`: the class's lists guard its constructor.
+          method_lists = (parent.allowlist, parent.denylist)
     if original is None:
       taken = _REGISTRY.get(f'{module}.{name}')
       if taken is not None and taken.wrapped is not fn_or_cls:
@@ -344,8 +348,8 @@ class ParseContext:
         name=name,
         module=module,
         # A re-registration keeps the lists the object was registered with.
-        allowlist=original.allowlist if original is not None else None,
-        denylist=original.denylist if original is not None else None,
+        allowlist=original.allowlist if original is not None else method_lists[0],
+        denylist=original.denylist if original is not None else method_lists[1],
         import_source=import_source,
         avoid_class_mutation=True)
     if original is not None:  # We've re-registered something...
